@@ -557,12 +557,16 @@ pub fn gen_c09(r: &mut SmallRng, kind: &str) -> (Model, &'static str) {
 
 /// C02 / C07: models near the phase transition that produce conflicts.
 pub fn gen_hard(r: &mut SmallRng) -> Model {
+    gen_hard_bounded(r, 60_000.0)
+}
+
+pub fn gen_hard_bounded(r: &mut SmallRng, max_space: f64) -> Model {
     let mut p = Profile::mixed();
     p.nint = (3, 6);
     p.nbool = (0, 2);
     p.ncons = (3, 8);
     p.width = 4;
-    p.max_space = 60_000.0;
+    p.max_space = max_space;
     match r.gen_range(0..4) {
         0 => {
             // pigeonhole-like: all different over a tight range plus linear side constraints
